@@ -447,6 +447,8 @@ pub fn run_single(sc: &Scenario, oracle: &Oracle, choices: &[u32]) -> Option<Exe
 /// all started before any result is read, so that the parent creates no hash map in between and every
 /// child iterates hash maps in the same order: replays must give identical observations).
 pub fn run_n(sc: &Scenario, oracle: &Oracle, choices: &[u32], n: usize) -> Vec<Option<ExecResult>> {
+    // make sure this thread's hash keys exist before forking: otherwise every child draws its own
+    let _keys = std::collections::hash_map::RandomState::new();
     let mut sc = sc.clone();
     sc.opts.trace = true;
     let scs = vec![sc];
